@@ -40,20 +40,20 @@ Theorem C12_kruskal_weight : forall n edges allow_forest, kruskal_valid n edges 
 Proof. exact kruskal_equiv. Qed.
 Print Assumptions C12_kruskal_weight.
 
-(* (5) bfs_edges.  Full statement (all targets): identical result, in particular the identical shortest path, for
-   graphs of at most 10^6 nodes.  The bound is needed: solvor.bfs.bfs() stops silently after max_iter = 1_000_000
-   iterations, the Rust kernel has no such cap, and on larger graphs the two back-ends DO differ (replayed on the
-   real code by the harness' scale probe).  Not finished: the case target = Some t needs, in addition to the
-   lock-step simulation proved in BfsEquiv.v, the agreement of the two path reconstructions (Rust walks the
-   predecessor array until it meets the source, Python walks the parent dict until a node without parent). *)
+(* (5) bfs_edges.  Full statement (all targets): identical result, in particular the identical shortest path.
+   (bfs() has an iteration cap; since dd63c7e bfs_edges passes max(1_000_000, n + |edges| + 1), which the model
+   carries and which is never reached, so no size bound is needed.)  Not finished: the case target = Some t
+   needs, in addition to the lock-step simulation proved in BfsEquiv.v, the agreement of the two path
+   reconstructions (Rust walks the predecessor array until it meets the source, Python walks the parent dict until
+   a node without parent). *)
 Definition C12_bfs_full_statement : Prop :=
-  forall n edges source target, ES.valid_input n edges source target = true -> (Z.of_nat n <= 1000000)%Z ->
+  forall n edges source target, ES.valid_input n edges source target = true ->
   RsSearch.bfs_edges n edges source target = PyEdges.bfs_edges n edges source target /\
   exists r, PyEdges.bfs_edges n edges source target = Some r.
 
 (* proved part: target = None - the same sorted list of reachable nodes, no fuel exhaustion *)
 Theorem C12_bfs_partial : forall n edges source,
-  ES.valid_input n edges source None = true -> (Z.of_nat n <= 1000000)%Z ->
+  ES.valid_input n edges source None = true ->
   RsSearch.bfs_edges n edges source None = PyEdges.bfs_edges n edges source None /\
   exists l, PyEdges.bfs_edges n edges source None = Some (ES.Reach l).
 Proof. exact bfs_reach_equiv. Qed.
